@@ -347,4 +347,57 @@ theorem C19_built (geo : Geo α) (pick : Pick α) (ord : Nat → List Nat → Li
 
 example : PickSpec (pickMin : Pick ℚ) := pickMin_spec
 
+/-- Manhattan geometry over ℚ with lookup-by-position as the "nearest" query -/
+def geoQ : Geo ℚ :=
+  { nearest := fun l p => l.find? fun m => decide (m.p.x = p.x ∧ m.p.y = p.y)
+    ptEq := fun p q => p.x == q.x && p.y == q.y
+    length := fun _ => 0
+    euclid := fun p q => |p.x - q.x| + |p.y - q.y|
+    one := 1 }
+
+/-- nodes 1 (0,0), 2 (4,0), 3 (4,3); links 1–2 (length 4) and 2–3 (length 3), speed 1 -/
+def netQ : Net ℚ :=
+  { opt := .distance
+    nodes := [⟨1, ⟨0, 0⟩⟩, ⟨2, ⟨4, 0⟩⟩, ⟨3, ⟨4, 3⟩⟩]
+    edges := [⟨0, 1, 2, 4, 1, 4⟩, ⟨1, 2, 3, 3, 1, 3⟩]
+    maxID := 3
+    maxSpeed := 1 }
+
+theorem wfQ : WF netQ := by
+  refine ⟨?_, ?_, ?_, ?_⟩
+  · intro e he; simp [netQ] at he; rcases he with rfl | rfl <;> norm_num
+  · intro e he; simp [netQ] at he; rcases he with rfl | rfl <;> norm_num
+  · intro e he; simp [netQ] at he; rcases he with rfl | rfl <;> simp [hasNode, netQ]
+  · intro m hm; simp [netQ] at hm; rcases hm with rfl | rfl | rfl <;> simp [netQ]
+
+theorem npQ : NoParallel netQ := by
+  intro e he e' he' u v h1 h2
+  simp [netQ] at he he'
+  rcases he with rfl | rfl <;> rcases he' with rfl | rfl <;> simp [Joins] at h1 h2 ⊢ <;> omega
+
+theorem geoOkQ : GeoOk geoQ netQ := by
+  refine ⟨?_, ?_, ?_⟩
+  · intro p q r
+    have h1 := abs_sub_le p.x q.x r.x
+    have h2 := abs_sub_le p.y q.y r.y
+    simp only [geoQ]; linarith
+  · intro e he pa pb ha hb
+    simp [netQ] at he
+    rcases he with rfl | rfl <;> simp [nodePos, netQ] at ha hb <;> subst ha <;> subst hb <;> norm_num [geoQ]
+  · intro e he; simp [netQ] at he; rcases he with rfl | rfl <;> norm_num [netQ]
+
+/-- the hypotheses of `C19_route` are jointly satisfiable (query from (0,0) to (4,3): nodes 1 and 3) -/
+example : ∃ (r : Route ℚ) (es : List (MEdge ℚ)), shortestRoute geoQ pickMin true (fun _ l => l) netQ ⟨0, 0⟩ ⟨4, 3⟩ = .ok r ∧
+      r.startNode = 1 ∧ r.endNode = 3 ∧ EChain 1 es 3 ∧ r.links = es.map (·.link) := by
+  have hs : geoQ.nearest netQ.nodes ⟨0, 0⟩ = some ⟨1, ⟨0, 0⟩⟩ := by simp [geoQ, netQ]
+  have ht : geoQ.nearest netQ.nodes ⟨4, 3⟩ = some ⟨3, ⟨4, 3⟩⟩ := by
+    simp [geoQ, netQ, List.find?]
+  have hnear : NearestMem geoQ := by
+    intro l p x h; exact List.mem_of_find?_eq_some h
+  have hord : ∀ (u : Nat) (l : List Nat) (x : Nat), x ∈ (fun (_ : Nat) (l : List Nat) => l) u l ↔ x ∈ l := fun _ _ _ => Iff.rfl
+  obtain ⟨r, es, h1, h2, h3, _, _, h6, _, h8, _⟩ := C19_route geoQ pickMin (fun _ l => l) netQ ⟨0, 0⟩ ⟨4, 3⟩ ⟨1, ⟨0, 0⟩⟩ ⟨3, ⟨4, 3⟩⟩
+    pickMin_spec hord wfQ npQ hnear hs ht (heuristic_consistent geoQ netQ _ hord wfQ geoOkQ 3)
+    ⟨[⟨0, 1, 2, 4, 1, 4⟩, ⟨1, 2, 3, 3, 1, 3⟩], by simp [netQ], by simp [EChain]⟩
+  exact ⟨r, es, h1, h2, h3, h8, h6⟩
+
 end GeomV.C19
